@@ -68,13 +68,15 @@ def _fold_const_operation(
             val = lhs.value.data * rhs.value.data
         case arith.DivfOp:
             if rhs.value.data == 0.0:
-                # this mirrors what mlir does
-                if lhs.value.data == 0.0:
+                # this mirrors what mlir does (IEEE 754): 0 / 0 and nan / 0 are nan,
+                # x / 0 is an infinity whose sign is the product of the signs of x
+                # and of the (signed) zero
+                if lhs.value.data == 0.0 or math.isnan(lhs.value.data):
                     val = float("nan")
-                elif lhs.value.data < 0:
-                    val = float("-inf")
                 else:
-                    val = float("inf")
+                    val = math.copysign(math.inf, lhs.value.data) * math.copysign(
+                        1.0, rhs.value.data
+                    )
             else:
                 val = lhs.value.data / rhs.value.data
         case _:
